@@ -29,6 +29,10 @@ import ModbusVerif.Lemmas.LifecycleLemmas
      the removal loop: one round (`rem_round_miss` / `_hit` / `_end`), the whole loop by induction
      on the number of remaining elements (`rem_loop`: any entry environment satisfying `RemInv`,
      any call history, every fuel ≥ remaining + 9).
+  6. `Stop`: `withRecv` (the receiver of `sock.Close()` made visible in the call log), the
+     instrumented term `sGs` = `stopWith (.loop stopBody)`, the prefix (`stopWith_tcp`), one round
+     (`stop_round_step` / `_end`), the loop (`stop_loop`), its calls (`stopTrace`,
+     `realCalls_stopTrace`).
   5. the reading of the final environment as a list (`clientsAfter`) = `Lifecycle.swapRemove`
      (`clientsAfter_of_RemOut`); the part after the dispatch (`handle_tail`) and the whole function
      given the run of its dispatch part (`handle_compose`, `handle_final`).
@@ -532,5 +536,171 @@ theorem handle_final (l : List ConnId) (tls : List Val) (c : ConnId) (hn : l.len
   | some p =>
     rintro ⟨h0, h1, h2, h3, h4, h5, h6⟩
     exact ⟨by omega, h2, h3, h4, by omega, by omega⟩
+
+/-! ### 6. `Stop`: the loop over the client sockets
+
+  `for _, sock := range ms.tcpClients { sock.Close() }` is rendered as a counted loop over `#i` whose
+  body assigns `sock := ms.tcpClients[#i]` (index-dependent leaf: probe instrumentation as above) and
+  then performs `bindCall [] "sock.Close" []`. The call has no receiver argument; `withRecv` passes
+  the receiver VARIABLE as an argument, so that the call log records the value `sock` has at the
+  moment of the call. Both instrumentations are removed again by `stripRecv` / `stripProbe`
+  (`strip_sGs`). -/
+
+/-- pass the receiver variable `recv` as an extra (first) argument to every call of `callee`: the
+    call log then records the VALUE the receiver has when the call is made -/
+def withRecv (callee recv : String) : GStmt → GStmt
+  | .seq a b => .seq (withRecv callee recv a) (withRecv callee recv b)
+  | .ite c t e => .ite c (withRecv callee recv t) (withRecv callee recv e)
+  | .loop b => .loop (withRecv callee recv b)
+  | .bindCall ts f as => if f = callee then .bindCall ts f (.var recv .other :: as) else .bindCall ts f as
+  | s => s
+
+def stripRecv (callee : String) : GStmt → GStmt
+  | .seq a b => .seq (stripRecv callee a) (stripRecv callee b)
+  | .ite c t e => .ite c (stripRecv callee t) (stripRecv callee e)
+  | .loop b => .loop (stripRecv callee b)
+  | .bindCall ts f as => if f = callee then .bindCall ts f as.tail else .bindCall ts f as
+  | s => s
+
+def sGs : GStmt := withRecv "sock.Close" "sock"
+  (withProbe "ms.tcpClients[#i]" "#ms.tcpClients[#i]" "#i" gs_ModbusServer_Stop)
+
+def stopBody : GStmt :=
+  (.seq (.bindCall ["ms.tcpClients[#i]"] "#ms.tcpClients[#i]" [.var "#i" .int])
+    (.ite (.cmp "<" (.var "#i" .int) (.var "#len(ms.tcpClients)" .int)) (.seq (.assign "sock" (.var "ms.tcpClients[#i]" .other)) (.seq (.bindCall [] "sock.Close" [.var "sock" .other]) (.assign "#i" (.bin "+" .int (.var "#i" .int) (.lit 1 .int))))) .brk))
+
+def stopWith (L : GStmt) : GStmt :=
+  (.seq (.ite (.not (.var "ms.started" .bool)) .ret .skip) (.seq (.assign "ms.started" (.lit 0 .bool)) (.seq (.ite (.or (.cmp "==" (.var "ms.transportType" .uint) (.lit (4) .uint)) (.cmp "==" (.var "ms.transportType" .uint) (.lit (5) .uint))) (.seq (.bindCall ["err"] "ms.tcpListener.Close" []) (.seq (.assign "#len(ms.tcpClients)" (.var "len(ms.tcpClients)" .int)) (.seq (.assign "#i" (.lit 0 .int)) L))) .skip) .ret)))
+
+theorem sGs_eq : sGs = stopWith (.loop stopBody) := by
+  simp only [sGs, withRecv, withProbe, gs_ModbusServer_Stop, stopWith, stopBody, String.reduceEq, ↓reduceIte]
+theorem strip_sGs : stripProbe "#ms.tcpClients[#i]" (stripRecv "sock.Close" sGs) = gs_ModbusServer_Stop := by
+  simp only [sGs_eq, stopWith, stopBody, stripRecv, stripProbe, gs_ModbusServer_Stop, String.reduceEq, ↓reduceIte, List.tail_cons]
+
+def stopOracleL (l : List ConnId) (cerr : Val) : Oracle := fun f args =>
+  if f = "#ms.tcpClients[#i]" then some [probeVal l (args.headD .unk)]
+  else if f = "ms.tcpListener.Close" then some [cerr]
+  else if f = "sock.Close" then some []
+  else none
+
+theorem stopWith_tcp (o : Oracle) (cerr : Val) (ho : ∀ a, o "ms.tcpListener.Close" a = some [cerr])
+    (L : GStmt) (n : Nat) (tt : Int) (h45 : tt = 4 ∨ tt = 5)
+    (env : Env) (cs : Calls) (len : Int)
+    (hst : Env.read? env "ms.started" = some (Val.ofBool true))
+    (htt : Env.read? env "ms.transportType" = some (.int tt))
+    (hlen : Env.read? env "len(ms.tcpClients)" = some (.int len))
+    (envL : Env) (csL : Calls)
+    (hL : execFrom o (n + 1) L (Env.write (Env.write (Env.write (Env.write env "ms.started" (.int 0)) "err" cerr)
+        "#len(ms.tcpClients)" (.int len)) "#i" (.int 0)) (cs ++ [("ms.tcpListener.Close", [])]) =
+      ⟨envL, .fell, csL⟩) :
+    execFrom o (n + 8) (stopWith L) env cs = ⟨envL, .returned, csL⟩ := by
+  rcases h45 with h | h <;> subst h <;>
+    go_eval [stopWith, ho, hst, htt, hlen, hL, Int.reduceEq, decide_true, decide_false,
+      Bool.or_false, Bool.or_true, or_true, true_or]
+
+/-- what a round of the `Stop` loop needs when it starts with `#i = k` -/
+structure StopInv (l : List ConnId) (k : Nat) (env : Env) : Prop where
+  hi : Env.read? env "#i" = some (.int (k : Int))
+  hlen : Env.read? env "#len(ms.tcpClients)" = some (.int (l.length : Int))
+
+/-- a round at an index inside the list: `sock` is assigned the element, `sock.Close()` is called
+    while `sock` has that value, the index is incremented -/
+theorem stop_round_step (l : List ConnId) (cerr : Val) (k : Nat) (env : Env) (cs : Calls)
+    (hn : l.length < 2^62) (hk : k < l.length) (inv : StopInv l k env) :
+    execFrom (stopOracleL l cerr) 6 stopBody env cs =
+      ⟨Env.write (Env.write (Env.write env "ms.tcpClients[#i]" (.int (l[k] : Nat))) "sock" (.int (l[k] : Nat)))
+          "#i" (.int ((k + 1 : Nat) : Int)), .fell,
+        cs ++ [("#ms.tcpClients[#i]", [.int (k : Int)]), ("sock.Close", [.int (l[k] : Nat)])]⟩ := by
+  have h1 := inv.hi
+  have h2 := inv.hlen
+  have hp := probeVal_lt l k hk
+  have hlt : (k : Int) < (l.length : Int) := by omega
+  have hw : wrap .int ((k : Int) + 1) = ((k + 1 : Nat) : Int) := by
+    rw [wrap_int (by omega) (by omega)]; omega
+  go_eval_nowrap [stopBody, stopOracleL, h1, h2, hp, hlt, hw, List.append_assoc]
+
+/-- the round with `#i = len`: the loop test fails, `break`; no call but the probe -/
+theorem stop_round_end (l : List ConnId) (cerr : Val) (env : Env) (cs : Calls)
+    (inv : StopInv l l.length env) :
+    execFrom (stopOracleL l cerr) 6 stopBody env cs =
+      ⟨Env.write env "ms.tcpClients[#i]" .unk, .broke,
+        cs ++ [("#ms.tcpClients[#i]", [.int (l.length : Int)])]⟩ := by
+  have h1 := inv.hi
+  have h2 := inv.hlen
+  have hp := probeVal_ge l l.length (Nat.le_refl _)
+  go_eval_nowrap [stopBody, stopOracleL, h1, h2, hp, Int.lt_irrefl]
+
+/-- the calls of the loop from index `k` on, `d` elements remaining: probe, close, probe, close, …,
+    final probe (of `len`) -/
+def stopTrace (l : List ConnId) : Nat → Nat → Calls
+  | k, 0 => [("#ms.tcpClients[#i]", [Val.int (k : Int)])]
+  | k, d + 1 => ("#ms.tcpClients[#i]", [Val.int (k : Int)]) ::
+      ("sock.Close", [probeVal l (.int (k : Int))]) :: stopTrace l (k + 1) d
+
+/-- without the probes: one `sock.Close` per element, in list order, made with `sock` = that element -/
+theorem realCalls_stopTrace (l : List ConnId) : ∀ (d k : Nat), k + d = l.length →
+    realCalls "#ms.tcpClients[#i]" (stopTrace l k d) =
+      (l.drop k).map (fun c => ("sock.Close", [Val.int (c : Nat)])) := by
+  intro d
+  induction d with
+  | zero =>
+    intro k hk
+    have : l.drop k = [] := List.drop_eq_nil_of_le (by omega)
+    simp only [stopTrace, realCalls, this, List.filter_cons, List.filter_nil, String.reduceBNe,
+      Bool.false_eq_true, ↓reduceIte, List.map_nil]
+  | succ d ih =>
+    intro k hk
+    have hlt : k < l.length := by omega
+    rw [List.drop_eq_getElem_cons hlt]
+    simp only [stopTrace, probeVal_lt l k hlt, List.map_cons]
+    rw [← ih (k + 1) (by omega)]
+    simp only [realCalls, List.filter_cons, String.reduceBNe, Bool.false_eq_true, ↓reduceIte]
+
+/-- what the loop of `Stop`, entered with `#i = k`, leaves behind: every key other than the leaf,
+    `sock` and `#i` is neither re-bound nor changed -/
+def StopOut (env env' : Env) : Prop :=
+  ∀ x, x ≠ "ms.tcpClients[#i]" → x ≠ "sock" → x ≠ "#i" →
+    Env.read? env' x = Env.read? env x ∧ writes x env' = writes x env
+
+/-- **the loop of `Stop`**, entered with `#i = k`: falls through, having made the calls
+    `stopTrace l k (len - k)` -/
+theorem stop_loop (l : List ConnId) (cerr : Val) (hn : l.length < 2^62) :
+    ∀ (d k : Nat) (env : Env) (cs : Calls), k + d = l.length → StopInv l k env →
+      ∀ fuel, d + 7 ≤ fuel →
+      ∃ env', execFrom (stopOracleL l cerr) fuel (.loop stopBody) env cs =
+          ⟨env', .fell, cs ++ stopTrace l k d⟩ ∧ StopOut env env' := by
+  intro d
+  induction d with
+  | zero =>
+    intro k env cs hkd inv fuel hf
+    have hk : k = l.length := by omega
+    subst hk
+    obtain ⟨f, rfl⟩ : ∃ f, fuel = f + 1 := ⟨fuel - 1, by omega⟩
+    have hb := execFrom_ge _ (stop_round_end l cerr env cs inv) (fun h => nomatch h) f (by omega)
+    refine ⟨Env.write env "ms.tcpClients[#i]" .unk, ?_, ?_⟩
+    · rw [execFrom_loop_of_broke _ hb]; rfl
+    · intro x h1 h2 h3
+      simp only [read?_write, writes_write, Ne.symm h1, ↓reduceIte, Nat.add_zero, and_self]
+  | succ d ih =>
+    intro k env cs hkd inv fuel hf
+    have hk : k < l.length := by omega
+    obtain ⟨f, rfl⟩ : ∃ f, fuel = f + 1 := ⟨fuel - 1, by omega⟩
+    have hb := execFrom_ge _ (stop_round_step l cerr k env cs hn hk inv) (fun h => nomatch h) f (by omega)
+    have inv' : StopInv l (k + 1)
+        (Env.write (Env.write (Env.write env "ms.tcpClients[#i]" (.int (l[k] : Nat))) "sock" (.int (l[k] : Nat)))
+          "#i" (.int ((k + 1 : Nat) : Int))) := by
+      constructor
+      · simp only [read?_write, ↓reduceIte]
+      · simp only [read?_write, String.reduceEq, ↓reduceIte]; exact inv.hlen
+    obtain ⟨env', hrun, hout⟩ := ih (k + 1) _
+      (cs ++ [("#ms.tcpClients[#i]", [.int (k : Int)]), ("sock.Close", [.int (l[k] : Nat)])])
+      (by omega) inv' f (by omega)
+    refine ⟨env', ?_, ?_⟩
+    · rw [execFrom_loop_of_fell _ hb, hrun]
+      simp only [stopTrace, probeVal_lt l k hk, List.append_assoc, List.cons_append, List.nil_append]
+    · intro x h1 h2 h3
+      have := hout x h1 h2 h3
+      simpa only [read?_write, writes_write, Ne.symm h1, Ne.symm h2, Ne.symm h3, ↓reduceIte,
+        Nat.add_zero] using this
 
 end Modbus.GoEval
